@@ -50,13 +50,41 @@ type vfC10RetrySpec struct {
 	Wait        time.Duration
 	Factor      float64
 	BackOff     string // "random" | "exponential"
+	// Unset*: the field is left out of the raw policy spec; the value above is then the documented
+	// default (maxAttempts 3, waitDuration 500ms, backOffPolicy random, randomizationFactor 0).
+	UnsetMax, UnsetWait, UnsetBackOff, UnsetFactor bool
 }
 
 func (p vfC10RetrySpec) String() string {
 	if p.Disabled {
 		return "retry{none}"
 	}
-	return fmt.Sprintf("retry{maxAttempts=%d wait=%v factor=%v backOff=%s}", p.MaxAttempts, p.Wait, p.Factor, p.BackOff)
+	u := func(unset bool) string {
+		if unset {
+			return "(unset: default)"
+		}
+		return ""
+	}
+	return fmt.Sprintf("retry{maxAttempts=%d%s wait=%v%s factor=%v%s backOff=%s%s}", p.MaxAttempts, u(p.UnsetMax), p.Wait, u(p.UnsetWait),
+		p.Factor, u(p.UnsetFactor), p.BackOff, u(p.UnsetBackOff))
+}
+
+// raw is the policy spec as a user would write it (unset fields left out).
+func (p vfC10RetrySpec) raw(name string) map[string]interface{} {
+	m := map[string]interface{}{"kind": "Retry", "name": name}
+	if !p.UnsetMax {
+		m["maxAttempts"] = p.MaxAttempts
+	}
+	if !p.UnsetWait {
+		m["waitDuration"] = p.Wait.String()
+	}
+	if !p.UnsetBackOff {
+		m["backOffPolicy"] = p.BackOff
+	}
+	if !p.UnsetFactor {
+		m["randomizationFactor"] = p.Factor
+	}
+	return m
 }
 
 // max is the number of attempts the pool may make for one client request.
@@ -400,7 +428,36 @@ type vfC10Env struct {
 	pool vfC10PoolSpec
 }
 
-func vfC10NewEnv(rt *rapid.T, ps vfC10PoolSpec) *vfC10Env {
+// vfC10BuildPolicies creates the pool's resilience policies from raw specs through
+// resilience.NewPolicy (as Pipeline does) under the names "rt"+suffix / "cb"+suffix.
+func vfC10BuildPolicies(rt *rapid.T, ps vfC10PoolSpec, suffix string, policies map[string]resilience.Policy) {
+	if !ps.Retry.Disabled {
+		rawRetry := ps.Retry.raw("rt" + suffix)
+		rp, err := resilience.NewPolicy(rawRetry)
+		if err != nil {
+			rt.Fatalf("VF-INCONCLUSIVE retry policy rejected: %v (%v)", err, rawRetry)
+		}
+		policies["rt"+suffix] = rp
+	}
+	if ps.Breaker != nil {
+		rawCB := map[string]interface{}{
+			"kind": "CircuitBreaker", "name": "cb" + suffix, "slidingWindowType": "COUNT_BASED",
+			"failureRateThreshold": ps.Breaker.Threshold, "slidingWindowSize": ps.Breaker.Window,
+			"minimumNumberOfCalls": ps.Breaker.Minimum, "slowCallRateThreshold": 100,
+			"slowCallDurationThreshold": "1h", "waitDurationInOpenState": ps.Breaker.waitOpen().String(),
+			"permittedNumberOfCallsInHalfOpenState": ps.Breaker.permitted(),
+		}
+		cp, err := resilience.NewPolicy(rawCB)
+		if err != nil {
+			rt.Fatalf("VF-INCONCLUSIVE breaker policy rejected: %v (%v)", err, rawCB)
+		}
+		policies["cb"+suffix] = cp
+	}
+}
+
+// vfC10NewProxy creates a Proxy whose main pool names the policies "rt"+suffix / "cb"+suffix and
+// injects the whole policy map (as Pipeline does for every filter).
+func vfC10NewProxy(rt *rapid.T, ps vfC10PoolSpec, suffix string, policies map[string]resilience.Policy) *vfC10Env {
 	pool := map[string]interface{}{
 		"servers":     []interface{}{map[string]interface{}{"url": "http://127.0.0.1:9095"}, map[string]interface{}{"url": "http://127.0.0.1:9096"}},
 		"loadBalance": map[string]interface{}{"policy": "roundRobin"},
@@ -413,36 +470,13 @@ func vfC10NewEnv(rt *rapid.T, ps vfC10PoolSpec) *vfC10Env {
 	if ps.TimeoutMs > 0 {
 		pool["timeout"] = fmt.Sprintf("%dms", ps.TimeoutMs)
 	}
-	policies := map[string]resilience.Policy{}
-	rawRetry := map[string]interface{}{
-		"kind": "Retry", "name": "rt", "maxAttempts": ps.Retry.MaxAttempts,
-		"waitDuration": ps.Retry.Wait.String(), "backOffPolicy": ps.Retry.BackOff,
-		"randomizationFactor": ps.Retry.Factor,
-	}
 	if !ps.Retry.Disabled {
-		pool["retryPolicy"] = "rt"
-		rp, err := resilience.NewPolicy(rawRetry)
-		if err != nil {
-			rt.Fatalf("VF-INCONCLUSIVE retry policy rejected: %v (%v)", err, rawRetry)
-		}
-		policies["rt"] = rp
+		pool["retryPolicy"] = "rt" + suffix
 	}
 	if ps.Breaker != nil {
-		pool["circuitBreakerPolicy"] = "cb"
-		rawCB := map[string]interface{}{
-			"kind": "CircuitBreaker", "name": "cb", "slidingWindowType": "COUNT_BASED",
-			"failureRateThreshold": ps.Breaker.Threshold, "slidingWindowSize": ps.Breaker.Window,
-			"minimumNumberOfCalls": ps.Breaker.Minimum, "slowCallRateThreshold": 100,
-			"slowCallDurationThreshold": "1h", "waitDurationInOpenState": ps.Breaker.waitOpen().String(),
-			"permittedNumberOfCallsInHalfOpenState": ps.Breaker.permitted(),
-		}
-		cp, err := resilience.NewPolicy(rawCB)
-		if err != nil {
-			rt.Fatalf("VF-INCONCLUSIVE breaker policy rejected: %v (%v)", err, rawCB)
-		}
-		policies["cb"] = cp
+		pool["circuitBreakerPolicy"] = "cb" + suffix
 	}
-	rawSpec := map[string]interface{}{"name": "proxy", "kind": "Proxy", "pools": []interface{}{pool}}
+	rawSpec := map[string]interface{}{"name": "proxy" + suffix, "kind": "Proxy", "pools": []interface{}{pool}}
 	spec, err := filters.NewSpec(nil, "", rawSpec)
 	if err != nil {
 		rt.Fatalf("VF-INCONCLUSIVE proxy spec rejected: %v (%v)", err, rawSpec)
@@ -451,6 +485,25 @@ func vfC10NewEnv(rt *rapid.T, ps vfC10PoolSpec) *vfC10Env {
 	px.Init()
 	px.InjectResiliencePolicy(policies)
 	return &vfC10Env{px: px, pool: ps}
+}
+
+// vfC10NewEnv: one pool with its policies. In half of the cases two more policies with very
+// different settings (a pipeline usually lists several) are created after the pool's own ones and
+// before anything is injected; they are never used by the pool and must not influence it.
+func vfC10NewEnv(rt *rapid.T, ps vfC10PoolSpec) *vfC10Env {
+	policies := map[string]resilience.Policy{}
+	vfC10BuildPolicies(rt, ps, "", policies)
+	if rapid.Bool().Draw(rt, "unrelatedPoliciesInPipeline") {
+		other := vfC10PoolSpec{
+			Retry:   vfC10RetrySpec{MaxAttempts: 7, Wait: time.Nanosecond, Factor: 1, BackOff: "exponential"},
+			Breaker: &vfC10BreakerSpec{Window: 100, Minimum: 100, Threshold: 100, Permitted: 10},
+		}
+		if ps.Retry.BackOff == "exponential" {
+			other.Retry.BackOff = "random"
+		}
+		vfC10BuildPolicies(rt, other, "-unrelated", policies)
+	}
+	return vfC10NewProxy(rt, ps, "", policies)
 }
 
 func (e *vfC10Env) close() { e.px.Close() }
